@@ -22,7 +22,7 @@ func checkC15(c *Ctx) {
 		"(C15.const) every imported name - import-all and selective - is bound through DeclareExternalElement with the exporting module (read-only, and calls run in the home module), and DeclareExternalValue declares a constant; " +
 		"(C15.missing) a missing library / module source is an error return; (C15.edge) every path through the custom-module branch that reaches the cycle check has recorded the edge importer->imported (module allocation or AddDependency), " +
 		"and the graph primitives record an edge on every path (no path from entry to return without the append); a detected cycle returns ModuleCircularDependency; (C15.exports) only method and type declarations (and library registration) add export values; " +
-		"(C15.path) the file finder builds root dir + path parts + \".zn\". NOT decided: that an imported method sees its home module's other symbols (run-time scope history; known to fail for same-module siblings, see DESIGN.md), the DFS itself (baseline tests), exhaustive graphs."
+		"(C15.path) the file finder builds root dir + path parts + \".zn\". (C15.home) every NewFunctionCallFrame in the evaluator names the callee's own module, never vm.GetCurrentModule() evaluated at call time; the cycle test has no path answering no-cycle before searching the graph. NOT decided: that an imported method sees its home module's other symbols (run-time scope history; known to fail for same-module siblings, see DESIGN.md), the DFS itself (baseline tests), exhaustive graphs."
 	R.Assumptions = []string{"checkCircularDepedencyDFS is a correct cycle test (7 baseline cases)", "path/filepath.Join semantics"}
 	u := c.Core()
 	u.buildSSA()
@@ -284,6 +284,61 @@ func checkC15(c *Ctx) {
 		R.check(okG, "C15.edge", "pkg/runtime.VM.CheckDepedency", u.pos(g.Pos()), "a detected cycle is reported as ModuleCircularDependency", "a detected cycle is not reported")
 	}
 
+	// ---- C15.home: a method, constructor or object method runs in the module that declared it - the frame pushed for
+	// the call names the module found together with the callee (or captured at declaration), never the module that
+	// happens to be current when the call is made
+	nHome := 0
+	for _, g := range u.srcFuncs("pkg/exec") {
+		for _, cs := range u.callsNamed(g, "pkg/runtime.NewFunctionCallFrame") {
+			nHome++
+			bad := flowsFrom(cs.Common().Args[0], func(v ssa.Value) bool {
+				call, ok := v.(*ssa.Call)
+				return ok && u.callName(call) == "pkg/runtime.VM.GetCurrentModule"
+			})
+			R.check(!bad, "C15.home", u.fname(g)+":"+siteName(u, g, cs), u.pos(cs.Pos()), "the call frame names the callee's own module", "the call frame is given the caller's current module (vm.GetCurrentModule() at call time): an imported method / constructor resolves names in the importer's scope instead of its own module")
+		}
+	}
+	R.min("C15.home", 3)
+
+	// the cycle test answers for the whole import graph: no shortcut answers "no cycle" without searching
+	if g := u.ssaFunc("pkg/runtime", "ModuleGraph.CheckCircularDepedency"); g != nil {
+		shortcut := ""
+		isSearch := func(in ssa.Instruction) bool {
+			call, ok := in.(*ssa.Call)
+			return ok && call.Call.StaticCallee() != nil && call.Call.StaticCallee().Pkg == g.Pkg
+		}
+		headers := map[*ssa.BasicBlock]bool{}
+		for _, h := range loopHeaders(g) {
+			headers[h] = true
+		}
+		searches := len(headers) > 0
+		for _, in := range instrsOf(g) {
+			if isSearch(in) {
+				searches = true
+			}
+		}
+		for _, b := range g.Blocks {
+			ret, isRet := b.Instrs[len(b.Instrs)-1].(*ssa.Return)
+			if !isRet {
+				continue
+			}
+			for _, src := range allSources(retValue(ret, 0)) {
+				k, isK := src.(*ssa.Const)
+				if !isK || k.Value == nil || k.Value.Kind() != constant.Bool || constant.BoolVal(k.Value) {
+					continue
+				}
+				// a constant "no cycle": legitimate only behind the search (a loop or a call of the search function)
+				if reachableAvoidingB(g.Blocks[0], 0, func(x ssa.Instruction) bool { return x == ssa.Instruction(ret) }, isSearch, headers) != nil {
+					shortcut = u.pos(ret.Pos())
+				}
+			}
+		}
+		okShort := shortcut == ""
+		R.check(searches && okShort, "C15.edge", "pkg/runtime.ModuleGraph.CheckCircularDepedency", u.pos(g.Pos()), "the answer is the result of the graph search on every path", "the cycle test can answer 'no cycle' without searching the graph (return at "+shortcut+"): some import cycles, e.g. a module importing itself, go unreported")
+	} else {
+		R.lost("C15.edge", "pkg/runtime.ModuleGraph.CheckCircularDepedency")
+	}
+
 	// ---- C15.exports
 	allowed := map[string]bool{"pkg/exec.evalClassDeclareStmt": true, "pkg/exec.evalFunctionDeclareStmt": true, "pkg/exec.evalImportStmt": true}
 	n := 0
@@ -337,7 +392,7 @@ func checkC17(c *Ctx) {
 		"(C17.runeerror) the comparison of that result with utf8.RuneError is refined by the returned size (size 1 = invalid byte, size 3 = the legitimate character U+FFFD) and utf8.FullRune tells an incomplete tail from an invalid byte; " +
 		"(C17.reject) on the invalid-byte edge the function returns a non-nil error, and both ReadAll implementations turn an undecoded remainder at end of input into an error; (C17.carry) the remainder returned by the decoder is stored and " +
 		"prepended by the next read (chunk-boundary invariance); (C17.bom) the byte-order mark is removed only on the first read: the first-read flag is set on every path through the first read, not only when a BOM was found; " +
-		"(C17.loop) ReadAll's loop ends only on an empty block or an error. NOT decided: equality of the decoded text with the file for all inputs (follows from the above plus utf8.DecodeRune's contract, which is trusted)."
+		"(C17.loop) ReadAll's loop ends only on an empty block or an error. (C17.propagate) after every call of the decoder or of a module-source finder a normal return is reachable only over the nil edge of a test of that error (io.EOF excepted) or by returning an error. NOT decided: equality of the decoded text with the file for all inputs (follows from the above plus utf8.DecodeRune's contract, which is trusted)."
 	R.Assumptions = []string{"unicode/utf8.DecodeRune / FullRune contracts", "os.File.Read returns 0 bytes only at end of file"}
 	u := c.Core()
 	u.buildSSA()
@@ -443,6 +498,49 @@ func checkC17(c *Ctx) {
 		}
 		R.check(full && hasErr && !badNil, "C17.reject", "pkg/io.readRune:invalid-byte", pos, "an invalid byte is an error; only an incomplete tail (utf8.FullRune false, more input may follow) is carried over", "an invalid byte does not lead to an error (the file would be silently truncated)")
 	}
+
+	// ---- C17.propagate: a failure while reading / decoding a source never lets the program run - after every
+	// call of the decoder (pkg/io) or of a module-source finder, a normal return is reachable only over the nil
+	// edge of a test of that error, or by returning an error
+	nProp := 0
+	for _, rel := range []string{"pkg/io", "pkg/exec"} {
+		for _, g := range u.srcFuncs(rel) {
+			tests := nilTests(g)
+			for _, in := range instrsOf(g) {
+				call, ok := in.(*ssa.Call)
+				if !ok {
+					continue
+				}
+				sig := call.Call.Signature()
+				if sig == nil || sig.Results().Len() == 0 || !isErrorType(sig.Results().At(sig.Results().Len()-1).Type()) {
+					continue
+				}
+				relevant := false
+				if callee := call.Call.StaticCallee(); callee != nil && callee.Pkg != nil && strings.HasSuffix(callee.Pkg.Pkg.Path(), "pkg/io") {
+					relevant = true
+				}
+				if namedTypeIs(call.Call.Value.Type(), "pkg/runtime", "ModuleCodeFinder") {
+					relevant = true
+				}
+				if call.Call.IsInvoke() && rel == "pkg/io" {
+					relevant = true // io.Reader.Read etc.
+				}
+				if !relevant {
+					continue
+				}
+				nProp++
+				key := u.fname(g) + ":" + siteName(u, g, call)
+				errV := errResult(call)
+				if errV == nil {
+					R.viol("C17.propagate", key, u.pos(call.Pos()), "the error result of a read / decode step is discarded")
+					continue
+				}
+				bad := errorDroppedAt(u, g, call, errV, tests)
+				R.check(bad == "", "C17.propagate", key, u.pos(call.Pos()), "a failure of this read / decode step is reported on every path", "when this read / decode step fails the function can still return normally at "+bad+": a partly read or undecodable source is used as if it were complete")
+			}
+		}
+	}
+	R.min("C17.propagate", 5)
 
 	// ---- C17.reject at end of input + C17.carry + C17.bom + C17.loop
 	if g := u.ssaFunc("pkg/io", "FileStream.ReadAll"); g != nil {
